@@ -79,13 +79,13 @@ pub fn check_score(mat: &Mat, dist: &Dist, ex: Option<&Exact>, s: f32, prev: Opt
         let d = (m / 2 + 1) as f64 * dist.step;
         let lo = ex.tail_ge(s as f64 + d);
         let hi = ex.tail_ge(s as f64 - d);
-        if p < lo - EPS_P {
+        if p < lo - exact::eps_rel(lo) {
             v.push((
                 "pvalue below P(S >= s+d)".into(),
                 format!("pvalue({}) = {:e} < exact P(S >= s+d) = {:e} (d = {} steps of {:e})", s, p, lo, m / 2 + 1, dist.step),
             ));
         }
-        if p > hi + EPS_P {
+        if p > hi + exact::eps_rel(hi) {
             v.push((
                 "pvalue above P(S >= s-d)".into(),
                 format!("pvalue({}) = {:e} > exact P(S >= s-d) = {:e} (d = {} steps of {:e})", s, p, hi, m / 2 + 1, dist.step),
